@@ -22,6 +22,8 @@ func corpus(c *ctx.Ctx) *tmpl.Corpus {
 // Dump prints debugging views.
 func Dump(c *ctx.Ctx, what string) error {
 	switch what {
+	case "siblings":
+		DumpSiblings(c)
 	case "templates":
 		if err := c.Load(); err != nil {
 			return err
